@@ -6,6 +6,7 @@
 -/
 import Dirk.Props.C18
 import Dirk.Lemmas.ListerAnchor
+import Dirk.Props.KernelsEq
 
 namespace Dirk
 
@@ -23,5 +24,24 @@ theorem C18_complete_whole_name (cfg : Config) (client : String) (paths : List S
 theorem C18_anchor_only_widens (r : Re) (w : String) :
     Re.fullMatch r w = true → Re.search (ungroupedAnchor r) w = true :=
   fullMatch_imp_search_ungrouped r w
+
+/-- **C18 (the lister is the source).** For every configuration, client and list of paths, the model's `listAccounts` is the
+    path-by-path filter whose predicate is the function translated on every run from the Go source of `ListAccounts`
+    (services/lister/standard/listaccounts.go): regex first (absent = every account), then the access check on
+    `wallet/account` under "Access account", then the public key, then the rules' answer; the string that is compiled is the
+    translated anchoring (`^`/`$` added unless already there) and equals the model's `listerAnchor`; a path is skipped, taken
+    whole or taken through the regex exactly as `listerPath` says. -/
+theorem C18_kernel_is_source (cfg : Config) (client : String) (paths : List String) :
+    (listAccounts cfg client paths = paths.flatMap (fun path =>
+      match listerPath path with
+      | none => []
+      | some (w, re?) =>
+        (cfg.accounts.filter (fun a => a.wallet == w)).filter (fun a =>
+          Gen.listAccountGen re?.isSome (re?.all (fun r => Re.search r a.name))
+            (check cfg.access client (Gen.listCheckedNameFnGen a.wallet a.name) Gen.listActionGen) true true))) ∧
+    (∀ s : String, Gen.listAnchorGen s = listerAnchor s) ∧
+    (∀ path, listPathGenOf path false false = listPathCode (listerPath path)) ∧
+    Gen.listActionGen = opAccess :=
+  ⟨listAccounts_eq_gen cfg client paths, listAnchor_eq_model, listPathGenOf_eq_code, list_shape_is_source.2.1⟩
 
 end Dirk
